@@ -138,18 +138,22 @@ class AuthServerDriver:
             m, ir, o = args
             mb = {'none': b'', 'unknown': b'NOPE'}.get(m, m.encode())
             line = b'AUTH' + (b' ' + mb if mb else b'')
+            if m == 'unknown' and ir == 'none' and o == 'ok':
+                # as long as a line may be (16384 bytes): still a line, answered like any other
+                line = b'AUTH NOPE ' + b'A' * (16384 - 10)
             if ir == 'user':
                 line += b' ' + binascii.hexlify(user)
             elif ir == 'baduser':
                 line += b' ' + binascii.hexlify(b'no_such_user_xyz')
             elif ir == 'badhex':
-                line += b' zz%'
+                # not hex at all, or hex of bytes that are not text
+                line += b' zz%' if (len(self.t.log) % 2) else b' 636166c3a9ff'
         elif name == 'Data':
             p, o = args
             if p == 'empty':
                 line = b'DATA'
             elif p == 'badhex':
-                line = b'DATA xyz'
+                line = b'DATA xyz' if (len(self.t.log) % 2) else b'DATA ff'
             else:
                 line = b'DATA ' + binascii.hexlify(self.cookie_response(p == 'right'))
         elif name == 'Begin':
